@@ -280,7 +280,8 @@ def reference_density(cfg, pars, ev):
         pi, pj, pk = [np.array(ev[x]) for x in (i, j, k)]
         sij = mink(pi + pj, pi + pj); mR = math.sqrt(sij); sik = mink(pi + pk, pi + pk)
         Ei = (sij + mf[i] ** 2 - mf[j] ** 2) / (2 * mR); Ek = (M0 ** 2 - sij - mf[k] ** 2) / (2 * mR)
-        cth = (sik - mf[i] ** 2 - mf[k] ** 2 - 2 * Ei * Ek) / (2 * math.sqrt(Ei ** 2 - mf[i] ** 2) * math.sqrt(Ek ** 2 - mf[k] ** 2))
+        den = 2 * math.sqrt(max(Ei ** 2 - mf[i] ** 2, 0.0)) * math.sqrt(max(Ek ** 2 - mf[k] ** 2, 0.0))
+        cth = (sik - mf[i] ** 2 - mf[k] ** 2 - 2 * Ei * Ek) / den if den > 0 else 1.0  # at the threshold of (ij) the angle is 0/0 and multiplies p^J = 0
         q, p, p0 = relp(M0, mR, mf[k]), relp(mR, mf[i], mf[j]), relp(m0R, mf[i], mf[j])
         q02 = (M0 - (m0R + mf[k])) * (M0 + (m0R + mf[k])) * (M0 - (m0R - mf[k])) * (M0 + (m0R - mf[k])) / (2 * M0) ** 2
         ratio = abs(bp(J, q02 * 9.0)) / bp(J, q * q * 9.0)  # modulus of the polynomial at the nominal momentum (Amp/Pipeline0.v Bprime_q2_abs)
